@@ -8,12 +8,13 @@ git checkout -q -- . ; rm -f tests/demo*.rs
 demo_cmd=$(python3 -c "import json;print(json.load(open('$d/meta$k.json')).get('demo_cmd',''))")
 extra=$(echo "$demo_cmd" | grep -o -- "+nightly" | head -1)
 feat=$(echo "$demo_cmd" | grep -o -- "--features [a-z,-]*" | head -1)
+rf=$(echo "$demo_cmd" | sed -n 's/.*RUSTFLAGS="\([^"]*\)".*/\1/p')
 cp "$d/demo$k.rs" tests/demo$k.rs
-echo "## clean tree demo ($extra $feat)"
-cargo $extra test --offline $feat --test demo$k > /tmp/confirm_clean.log 2>&1; c_clean=$?
+echo "## clean tree demo ($extra $feat RUSTFLAGS=$rf)"
+RUSTFLAGS="$rf" CARGO_TARGET_DIR=target/demo cargo $extra test --offline $feat --test demo$k > /tmp/confirm_clean.log 2>&1; c_clean=$?
 git apply "$d/mutant$k.diff" || { echo "APPLY FAILED"; git checkout -q -- .; rm -f tests/demo*.rs; exit 9; }
 echo "## mutant demo"
-cargo $extra test --offline $feat --test demo$k > /tmp/confirm_mut.log 2>&1; c_mut=$?
+RUSTFLAGS="$rf" CARGO_TARGET_DIR=target/demo cargo $extra test --offline $feat --test demo$k > /tmp/confirm_mut.log 2>&1; c_mut=$?
 rm -f tests/demo$k.rs
 echo "## mutant full suite (default config)"
 cargo nextest run --workspace --no-fail-fast --offline --test-threads 8 > /tmp/confirm_suite.log 2>&1; c_suite=$?
